@@ -290,6 +290,11 @@ pub fn get_best_move(
         moves.sort_unstable_by_key(|k| Reverse(k.order_heuristic));
         #[cfg(walleye_verif)]
         crate::verif::log_order(b'R', &moves);
+        if cur_depth == 1 && !moves.is_empty() {
+            // hand over a move to fall back on before the first evaluation starts: that evaluation
+            // (its capture search never looks at the clock) can take far longer than the time slice
+            tx.send(moves[0].clone()).unwrap();
+        }
         for mov in &moves {
             // make an effort to exit once we are out of time
             if out_of_time(start, time_to_move_ms) {
